@@ -87,7 +87,7 @@ def c28(c):
     c.cov['traces_validated_against_impl'] = res['completed']
     c.cov['evaluations'] = res['executed']
     c.cov['distinct_nontrivial'] = res['nontrivial']
-    c.cov['samples'] = res['samples']
+    c.cov['samples'] = res['samples'] or []
     c.cov['rule'] = ('behaviours of UnsubAllSim.tla (TLC -simulate): Subscribe / NodeUnsubscribe steps on four connections over two real nodes; '
                      'non-trivial = Node.Unsubscribe with an empty channel selecting at least one connection that holds a subscription and conforming to '
                      'the model, distinct by (arguments, subscriptions of the selected connections before the call)')
@@ -114,7 +114,7 @@ def c27(c):
     c.cov['traces_validated_against_impl'] = res['completed']
     c.cov['evaluations'] = res['extra'].get('runs', 0)
     c.cov['distinct_nontrivial'] = res['nontrivial']
-    c.cov['samples'] = res['samples']
+    c.cov['samples'] = res['samples'] or []
     c.cov['exhaustive'] = True
     c.cov['rule'] = ('rows (operation, option set) enumerated by TLC from Control.tla (%s), each executed on two real nodes with the call issued on the '
                      'node holding the connections and on the other node; non-trivial = non-empty option set whose real local effect and wire fields '
@@ -157,7 +157,7 @@ def c41(c):
         tot['executed'] += res['executed']
         tot['completed'] += res['completed']
         c.cov['distinct_nontrivial'] += res['nontrivial']
-        c.cov['samples'] += res['samples'][:1]
+        c.cov['samples'] += (res['samples'] or [])[:1]
     c.cov['traces_validated_against_impl'] = tot['completed']
     c.cov['evaluations'] = tot['executed']
     c.cov['rule'] = ('behaviours of Survey.tla (TLC -simulate, 2 and 3 expected nodes) plus two witness schedules, gate-replayed on a real node; '
